@@ -15,7 +15,7 @@ import (
 var (
 	lvNotice = log.RegisterLevel(350, "notice")
 	lvTop    = log.RegisterLevel(998, "Top")
-	tagC01   = log.RegisterTag("_c01_probe")
+	tagC01   = regTag("_c01_probe")
 )
 
 type lvl struct {
